@@ -410,6 +410,27 @@ func childMerge(c *run.Ctx, cfg childCfg) {
 				if !reflect.DeepEqual(lv, levelsOf(tree.BFS(tn))) || !reflect.DeepEqual(fg.Names, tree.Names) {
 					undecide("replica of getTree and the real MergeStackTraces returned different flame graphs for the same statement", tn)
 				}
+				// the same question through the controller with the request's node limit set: whatever a reader leaves out
+				// of the drawing, the weight stays (level 0 = Σ inputs) and every bar lies inside its parent
+				for _, mn := range []int64{int64(max(bars/2, 1)), 3} {
+					if bars < 4 {
+						break
+					}
+					fgn, err := feed.serviceHTTP(w, mn)
+					if err != nil {
+						undecide("SelectMergeStacktraces through the controller failed", clip(err.Error(), 200))
+						break
+					}
+					c.Floor("flame graphs asked for with max_nodes below their node count", 0, 1)
+					lvn := levelsOf(fgn.Levels)
+					_, fsn, _ := checkFlame(fgn.Names, lvn, got.rootTotal())
+					for _, f := range fsn {
+						rp.violation(f.Sig+"/max_nodes", fmt.Sprintf("type %s (SelectMergeStacktraces with max_nodes=%d, %d bars without the limit): %s", tn, mn, bars, f.Desc), map[string]any{"sample_type": tn, "max_nodes": mn, "levels_head": headLevels(lvn, 6)})
+					}
+					if fgn.Total != got.rootTotal() {
+						rp.violation("flame/total≠sum-of-inputs/max_nodes", fmt.Sprintf("type %s: FlameGraph.Total = %d with max_nodes=%d, Σ root totals of the inputs = %d", tn, fgn.Total, mn, got.rootTotal()), map[string]any{"sample_type": tn, "max_nodes": mn})
+					}
+				}
 			}
 			// the sample types of one profile type asked for at the same time (two panels of one dashboard): every
 			// caller must get the flame graph of ITS sample type, i.e. what the same request returned on its own
